@@ -235,15 +235,10 @@ pub fn run_c43(args: &Args) -> i32 {
     check.finish()
 }
 
-pub fn run_c42net(args: &Args) -> i32 {
-    let check = Check::new(
-        args,
-        "exploration",
-        "record_ttl in {None, 3 s, 100 s} x received ttl in {absent, 1, 5, 50, 1000 s} x publisher in {none, sender}, PUT_VALUE sent by hand to a \
-         real kad node; `expires` read from the store with one-sided stamps; non-trivial = every stored record; distinct by (config, ttl, publisher, schedule)",
-    );
-    let cases = args.tier.pick(600u64, 40_000);
-    vmon::par_cases_timed(&check, cases, args.threads, args.tier.pick(35.0, 400.0), |case_idx, rng: &mut Rng| {
+/// C42 first half (records received over the wire), feeding the caller's `Check`
+pub fn c42_part_a(check: &Check, args: &Args) {
+    let cases = if args.extra.contains_key("budget") { 30 } else { args.tier.pick(600u64, 40_000) };
+    vmon::par_cases_timed(check, cases, args.threads, args.tier.pick(35.0, 400.0), |case_idx, rng: &mut Rng| {
         let cfg_ttl = [None, Some(3u64), Some(100)][(case_idx % 3) as usize];
         let ttl = [0u32, 1, 5, 50, 1000][((case_idx / 3) % 5) as usize];
         let with_publisher = (case_idx / 15) % 2 == 1;
@@ -290,9 +285,9 @@ pub fn run_c42net(args: &Args) -> i32 {
         }
         check.case(Sig::new().u64(case_idx % 30).u64(rig.net.trace.0).0, true);
         check.distinct("config_ttl_publisher_cells", case_idx % 30);
+        check.count("part_a_records_received_and_stored", 1);
         if check.want_sample() && case_idx % 7 == 0 {
             check.sample(wit);
         }
     });
-    check.finish()
 }
